@@ -5,6 +5,7 @@ graph: unwind edges and cleanup blocks are ignored (panics are out of scope exce
 looks at the diverging constructs themselves).
 """
 import json
+import os
 import re
 from collections import defaultdict, deque
 
@@ -226,6 +227,15 @@ class Body:
         return seen
 
     def find_path(self, starts, goals, avoid=(), avoid_edges=(), from_succ=False):
+        """Block path from a start to a goal (avoiding ...), or None.  A path found by plain search is confirmed by
+        the search with constant / variant propagation (find_path_cp), which discards paths that contradict a
+        value assigned on the way (`let ok = matches!(..); if ok {..}`, a helper returning Some / None)."""
+        p = self._find_path_plain(starts, goals, avoid, avoid_edges, from_succ)
+        if p is None or os.environ.get("VERIF_NO_CP"):
+            return p
+        return self.find_path_cp(starts, goals, avoid, avoid_edges, from_succ)
+
+    def _find_path_plain(self, starts, goals, avoid=(), avoid_edges=(), from_succ=False):
         """Shortest block path from a start to a goal (avoiding ...), or None.  With `from_succ`
         the search begins at the successors of the start blocks (the start block itself is the
         first element of the returned path but need not be a goal / may be avoided)."""
@@ -265,11 +275,12 @@ class Body:
             path.append(first[path[-1]])
         return list(reversed(path))
 
-    def find_path_cp(self, starts, goals, avoid=()):
-        """find_path with propagation of constants assigned to whole locals (`_x = const`, `_y = copy/move _x`):
-        a switch on a local whose value is known follows only the matching edge.  Resolves the `matches!(..)` /
-        `let ok = match .. {A => true, _ => false}; if ok {..}` idiom that plain path search over-approximates."""
-        avoid, goals = set(avoid), set(goals)
+    def find_path_cp(self, starts, goals, avoid=(), avoid_edges=(), from_succ=False):
+        """find_path with propagation of constants and enum variants assigned to whole locals (`_x = const`,
+        `_x = Enum::Variant(..)`, `_y = copy/move _x`, `_d = discriminant(_x)`): a switch on a local whose value is
+        known follows only the matching edge.  Resolves the `matches!(..)` / `let ok = match .. {A => true, _ => false};
+        if ok {..}` idiom and values returned by spliced-in helpers, which plain path search over-approximates."""
+        avoid, goals, avoid_edges = set(avoid), set(goals), set(avoid_edges)
 
         def step(bb, env):
             env = dict(env)
@@ -295,6 +306,14 @@ class Body:
                             val = None
                     elif o[0] != "k" and len(o[1]) == 1 and o[1][0] in env:
                         val = env[o[1][0]]
+                elif rv["r"] == "agg" and rv.get("kind") == "adt" and rv.get("variant") is not None:
+                    val = ("variant", rv["variant"])
+                elif rv["r"] == "discr" and len(rv["p"]) == 1 and rv["p"][0] in env:
+                    cur = env[rv["p"][0]]
+                    if isinstance(cur, tuple) and cur[0] == "variant":
+                        for idx, name in rv.get("variants", []):
+                            if name == cur[1]:
+                                val = int(idx)
                 if val is None:
                     env.pop(p[0], None)
                 else:
@@ -302,7 +321,25 @@ class Body:
             t = self.term(bb)
             if t["t"] == "call" and t.get("d") and len(t["d"]) >= 1:
                 env.pop(t["d"][0], None)
-            if t["t"] == "switch" and t["o"][0] != "k" and len(t["o"][1]) == 1 and t["o"][1][0] in env:
+                if len(t["d"]) == 1:
+                    c = callee(t) or ""
+                    # the `?` operator: Try::branch maps Some/Ok -> Continue, None/Err -> Break; from_residual
+                    # always builds the failure variant of its result type
+                    if c.endswith("Try::branch") and t["a"] and t["a"][0][0] != "k" and len(t["a"][0][1]) == 1:
+                        cur = env.get(t["a"][0][1][0])
+                        if isinstance(cur, tuple) and cur[0] == "variant":
+                            if cur[1] in ("Some", "Ok"):
+                                env[t["d"][0]] = ("variant", "Continue")
+                            elif cur[1] in ("None", "Err"):
+                                env[t["d"][0]] = ("variant", "Break")
+                    elif c.endswith("FromResidual::from_residual"):
+                        ty = (t.get("fn") or {}).get("self_ty", "") or t.get("dty", "")
+                        if ty.startswith("std::option::Option"):
+                            env[t["d"][0]] = ("variant", "None")
+                        elif ty.startswith("std::result::Result"):
+                            env[t["d"][0]] = ("variant", "Err")
+            if t["t"] == "switch" and t["o"][0] != "k" and len(t["o"][1]) == 1 and t["o"][1][0] in env and \
+                    not isinstance(env[t["o"][1][0]], tuple):
                 v = env[t["o"][1][0]]
                 nxt = [tb for val, tb in t["targets"] if str(val) == str(v)] or [t["otherwise"]]
             else:
@@ -311,12 +348,25 @@ class Body:
 
         seen = {}
         dq = deque()
+        first = {}
         for s0 in starts:
+            if from_succ:
+                nxt, env2 = step(s0, frozenset())
+                for n in nxt:
+                    if n in avoid or (s0, n) in avoid_edges:
+                        continue
+                    st = (n, env2)
+                    if st not in seen:
+                        seen[st] = None
+                        first[st] = s0
+                        dq.append(st)
+                continue
             if s0 in avoid:
                 continue
             st = (s0, frozenset())
-            seen[st] = None
-            dq.append(st)
+            if st not in seen:
+                seen[st] = None
+                dq.append(st)
         while dq:
             cur = dq.popleft()
             bb, env = cur
@@ -324,13 +374,19 @@ class Body:
                 path = [cur]
                 while seen[path[-1]] is not None:
                     path.append(seen[path[-1]])
-                return [x[0] for x in reversed(path)]
+                out = [x[0] for x in reversed(path)]
+                if path[-1] in first:
+                    out = [first[path[-1]]] + out
+                return out
             nxt, env2 = step(bb, env)
             for n in nxt:
-                if n in avoid:
+                if n in avoid or (bb, n) in avoid_edges:
                     continue
                 st = (n, env2)
-                if st not in seen and len(seen) < 20000:
+                if st not in seen:
+                    if len(seen) >= 40000:
+                        # state budget exhausted: fall back to the plain (over-approximating) answer
+                        return self._find_path_plain(starts, goals, avoid, avoid_edges, from_succ)
                     seen[st] = cur
                     dq.append(st)
         return None
@@ -693,6 +749,14 @@ class Body:
     def _place_expr(self, local, projs, depth, seen):
         if depth <= 0:
             return ("deep",)
+        for k, p in enumerate(projs):
+            if isinstance(p, str) and p.startswith("[_"):
+                # built-in slice / array indexing: keep the index expression
+                base = self._place_expr(local, list(projs[:k]), depth - 1, seen)
+                idx = self._place_expr(int(p[2:-1]), [], depth - 1, seen)
+                pp = proj_path(projs[k + 1:])
+                e = ("index", base, idx)
+                return ("proj", e, pp) if pp else e
         root = self._root(local)
         if root is not None:
             if root[0] == "closure_env":
@@ -783,8 +847,11 @@ class Body:
                             return self._const_expr(o[1])
                         return self._place_expr(o[1][0], list(o[1][1:]) + ps[1:], depth - 1, seen)
                 names = rv.get("fields") or [str(i) for i in range(len(rv["ops"]))]
-                return wrap(("agg", rv.get("adt", rv.get("kind")), rv.get("variant"),
-                             tuple((n, self.expr(o, depth - 2, seen)) for n, o in zip(names, rv["ops"]))), projs)
+                node = ("agg", rv.get("adt", rv.get("kind")), rv.get("variant"),
+                        tuple((n, self.expr(o, depth - 2, seen)) for n, o in zip(names, rv["ops"])))
+                if rv.get("dp"):
+                    node = node + (rv["dp"],)       # closure / coroutine body
+                return wrap(node, projs)
             return ("other", r)
         if d[0] == "call":
             _, bb, t = d
@@ -809,7 +876,7 @@ class Body:
                     ps = ps[1:]
                     if ps and ps[0].startswith(".0"):
                         ps = ps[1:]
-                return wrap((kind, inner), ps)
+                return wrap((kind, inner, t.get("fn", {}).get("self_ty", "")), ps)
             e = ("call", c, tuple(self.expr(a, depth - 1, seen) for a in t["a"]), bb,
                  tuple(t.get("fn", {}).get("args", ())))
             return wrap(e, projs)
@@ -879,6 +946,30 @@ def callee_resolved(t):
     return strip_generics(r) if r else callee(t)
 
 
+class BodyMap(dict):
+    """dict of bodies whose enumeration skips helpers that were spliced into all of their callers."""
+
+    def __init__(self, d, hidden_keys=None, hidden_ids=None):
+        super().__init__(d)
+        self._hk = hidden_keys or set()
+        self._hi = hidden_ids or set()
+
+    def _vis(self, k, v):
+        return k not in self._hk and id(v) not in self._hi
+
+    def items(self):
+        return [(k, v) for k, v in super().items() if self._vis(k, v)]
+
+    def values(self):
+        return [v for k, v in super().items() if self._vis(k, v)]
+
+    def keys(self):
+        return [k for k, v in super().items() if self._vis(k, v)]
+
+    def __iter__(self):
+        return iter(self.keys())
+
+
 class Facts:
     def __init__(self, files):
         """files: {stem: path} as returned by extract.extract()"""
@@ -892,6 +983,7 @@ class Facts:
         self.consts = {}
         self.unsafe_blocks = []
         self.crate_attrs = {}
+        self._inliner = None
         for stem, path in sorted(files.items()):
             j = json.load(open(path))
             crate = j["crate"]
@@ -932,6 +1024,8 @@ class Facts:
             "adts": len(self.adts),
             "impls": len(self.impls),
         }
+        if not os.environ.get("VERIF_NO_INLINE"):
+            self._install_views()
 
     # ------------------------------------------------------------------ lookup (fail closed)
     def body(self, path):
@@ -940,15 +1034,82 @@ class Facts:
             raise AnchorMissing(f"function body `{path}` not found")
         return b
 
+    def raw(self, b):
+        """The body as extracted (before helper splicing)."""
+        return getattr(b, "raw", b)
+
     def family(self, path):
-        """P1: the body plus all nested closures / coroutines."""
+        """P1: the body plus all nested closures / coroutines (of spliced-in helpers too)."""
         root = self.body(path)
         out = [root]
         i = 0
         while i < len(out):
-            out.extend(self.children.get((out[i].crate, out[i].dp), []))
+            for k in self.children.get((out[i].crate, out[i].dp), []):
+                if k not in out:
+                    out.append(k)
             i += 1
         return out
+
+    def family_raw(self, path):
+        return [self.raw(b) for b in self.family(path)]
+
+    def kids(self, b):
+        return list(self.children.get((b.crate, b.dp), []))
+
+    def _install_views(self):
+        """Replace every remoc body by its view (helpers unknown to the rules spliced in, see inline.py) and hide
+        helpers that were spliced into all of their callers from enumeration (their code is analysed in context)."""
+        import inline
+        inl = inline.Inliner(self)
+        raw = dict(self.by_dp)
+        views = {}
+        for k, b in raw.items():
+            views[k] = inl.view(b) if b.crate == "remoc" else b
+        # helpers spliced everywhere they are called directly
+        callers = defaultdict(set)
+        for k, b in raw.items():
+            if b.crate != "remoc":
+                continue
+            for bb, t in b.calls():
+                fn = t.get("fn") or {}
+                if fn.get("local"):
+                    dp = fn.get("resolved_dp") or fn.get("dp")
+                    if ("remoc", dp) in raw:
+                        callers[("remoc", dp)].add(k)
+        hidden = set()
+        for h in inl.spliced:
+            ok = bool(callers.get(h))
+            for c in callers.get(h, ()):
+                v = views[c]
+                for bb, t in v.calls():
+                    fn = t.get("fn") or {}
+                    if fn.get("local") and (fn.get("resolved_dp") or fn.get("dp")) == h[1]:
+                        ok = False
+            hb = raw[h]
+            info = self.fns.get(hb.path) or self.fns.get(strip_generics(hb.path)) or {}
+            if info.get("vis") == "pub":
+                ok = False      # nominally public: an entry point of its own, stays visible to enumerating rules
+            if ok and hb.kind in ("fn", "assoc_fn"):
+                hidden.add(h)
+                for kid in self.children.get(h, []):
+                    if kid.kind == "coroutine" and (h in inl.spliced_async):
+                        hidden.add((kid.crate, kid.dp))
+        self.by_dp_raw = raw
+        self.hidden = hidden
+        self.by_dp = BodyMap(views, hidden)
+        hidden_objs = {id(views[h]) for h in hidden}
+        self.bodies = BodyMap({p: views[(b.crate, b.dp)] for p, b in self.bodies.items()}, None, hidden_objs)
+        ch = defaultdict(list)
+        for k, lst in self.children.items():
+            ch[k] = [views[(x.crate, x.dp)] for x in lst]
+        for k, v in views.items():
+            for hp in getattr(v, "inlined_dps", ()):
+                for x in self.children.get(("remoc", hp), []):
+                    vx = views[(x.crate, x.dp)]
+                    if vx not in ch[k] and (x.crate, x.dp) not in hidden:
+                        ch[k].append(vx)
+        self.children = ch
+        self._inliner = inl
 
     def main_body(self, path):
         """For an `async fn`: the coroutine that holds the user code, looking through
@@ -1061,6 +1222,9 @@ def walk(e):
         yield from walk(e[1])
     elif k == "proj":
         yield from walk(e[1])
+    elif k == "index":
+        yield from walk(e[1])
+        yield from walk(e[2])
     elif k == "agg":
         for _, x in e[3]:
             yield from walk(x)
@@ -1127,6 +1291,8 @@ def show(e, depth=0):
         return f"{show(e[1], depth + 1)}?"
     if k == "proj":
         return f"{show(e[1], depth + 1)}.{'.'.join(e[2])}"
+    if k == "index":
+        return f"{show(e[1], depth + 1)}[{show(e[2], depth + 1)}]"
     if k == "agg":
         return f"{e[1]}::{e[2]}{{…}}"
     if k == "with":
